@@ -46,3 +46,19 @@ def inventAll (ns : List Name) (maxlen : Nat) : List (List Name) → Option (Lis
       | some (ns', rs) => some (ns', r :: rs)
 
 end Hdl21.Names
+
+namespace Hdl21.Names
+
+/-- The same batch step for *any* way of choosing a name: `choose ns segs` is whatever the code at hand does to find a name for
+    `segs` next to the names `ns` (append underscores, count up, give up). -/
+def inventAllWith (choose : List Name → List Name → Option Name) (ns : List Name) : List (List Name) → Option (List Name × List Name)
+  | [] => some (ns, [])
+  | segs :: rest =>
+    match choose ns segs with
+    | none => none
+    | some r =>
+      match inventAllWith choose (insertName ns r) rest with
+      | none => none
+      | some (ns', rs) => some (ns', r :: rs)
+
+end Hdl21.Names
